@@ -248,3 +248,17 @@ Proof.
     destruct k as [|[|k]]; [eexists; vm_compute; reflexivity|eexists; vm_compute; reflexivity|exfalso; lia]. }
   split; vm_compute; reflexivity.
 Qed.
+
+(* ---- the maximum over the continuous choices as the code computes it (Gen/CCV.v) ----------------- *)
+From LCM Require Import Gen.CCV Proofs.ArrLemmas2 Proofs.C06_CCV.
+(* compute_ccv(u, f) = u.max(where=f, initial=-inf): an upper bound of every feasible entry, attained   *)
+(* by a feasible entry, and -inf exactly when no entry is feasible -- an infeasible choice never          *)
+(* determines a value                                                                                     *)
+Theorem C01_code_maximum_over_continuous_choices : forall (u : arr val) (f : arr bool),
+  wf u -> wf f -> Forall defined (data u) -> shape f = shape u ->
+  let M := compute_ccv u f in
+  defined M /\
+  (forall idx, in_bounds (shape u) idx -> get false f idx = true -> vle (get VUndef u idx) M) /\
+  (M = VNegInf \/ exists idx, in_bounds (shape u) idx /\ get false f idx = true /\ get VUndef u idx = M).
+Proof. exact stored_maximum_is_max_over_feasible. Qed.
+Print Assumptions C01_code_maximum_over_continuous_choices.
